@@ -94,7 +94,14 @@ def _atmo(p):
 
 def _cfg_loop(tier):
     its = [1, 2, 3] if tier == 'quick' else [1, 2, 3, 4, 5]
-    return [{'max_iter': m, 'api': a} for m in its for a in ('zero_angle', 'barrel_elevation_for_target', 'set_weapon_zero')]
+    out = [{'max_iter': m, 'api': a} for m in its for a in ('zero_angle', 'barrel_elevation_for_target', 'set_weapon_zero')]
+    # how the zero distance is given: a quantity in another unit, or a BARE number under a preferred unit set after import
+    units = ['Meter', 'Foot', 'Yard'] if tier == 'quick' else ['Meter', 'Foot', 'Yard', 'Kilometer', 'Inch', 'Mile']
+    for i, u in enumerate(units):
+        for a in ('barrel_elevation_for_target', 'set_weapon_zero'):
+            out.append({'max_iter': 1 + i % 2, 'api': a, 'dist': ('bare', u)})
+            out.append({'max_iter': 1 + (i + 1) % 2, 'api': a, 'dist': ('quantity', u)})
+    return out
 
 
 @harness('C02.loop', 'C02', configs=_cfg_loop, functions=FUNCS, cost=5, engine_opts={'div_check': False, 'nl_axioms_in_feasibility': False},
@@ -105,8 +112,19 @@ def _cfg_loop(tier):
          stubs=['TrajectoryCalc._integrate -> arbitrary trajectory honouring the contract decided in C03 (one terminal row / rows at record multiples)',
                 'sin/cos summarised'],
          outside=['convergence of the iteration for real drag trajectories (only the straight-line contraction lemma C02.newton)'])
-def c02_loop(ctx, max_iter, api):
+def c02_loop(ctx, max_iter, api, dist=None):
     p, U, tc, calc, shot, look, prev_zero, D, acc = _world(ctx, max_iter)
+    from harness.common import with_preferred
+    from ref import si
+    import contextlib
+    if dist is None:
+        given, pref = U.Foot(D), contextlib.nullcontext()
+    else:
+        DU = getattr(U, dist[1])
+        number = D * (si.FOOT / si.LENGTH_M[dist[1]])           # the same length as a number of `dist[1]`
+        given = number if dist[0] == 'bare' else DU(number)
+        pref = with_preferred(distance=DU) if dist[0] == 'bare' else contextlib.nullcontext()
+        D = DU(number).raw_value / 12          # the length as the real unit code reads that number of `dist[1]` (unit factors are C06's subject)
     heights = []
 
     def height_fn(k, elev, x):
@@ -129,12 +147,13 @@ def c02_loop(ctx, max_iter, api):
     stored_before = shot.weapon.zero_elevation
     raw_before = stored_before.raw_value
     try:
-        if api == 'zero_angle':
-            found = calc._calc.zero_angle(shot, U.Foot(D)) >> U.Radian
-        elif api == 'barrel_elevation_for_target':
-            found = (calc.barrel_elevation_for_target(shot, U.Foot(D)) >> U.Radian) + look
-        else:
-            found = (calc.set_weapon_zero(shot, U.Foot(D)) >> U.Radian) + look
+        with pref:
+            if api == 'zero_angle':
+                found = calc._calc.zero_angle(shot, given) >> U.Radian
+            elif api == 'barrel_elevation_for_target':
+                found = (calc.barrel_elevation_for_target(shot, given) >> U.Radian) + look
+            else:
+                found = (calc.set_weapon_zero(shot, given) >> U.Radian) + look
         err = None
     except p.ZeroFindingError as e:
         found, err = None, e
@@ -165,7 +184,7 @@ def c02_loop(ctx, max_iter, api):
         ctx.check('failed_attempt_leaves_stored_zero', shot.weapon.zero_elevation is stored_before and ctx.same_term(stored_before.raw_value, raw_before))
     # every trajectory was fired towards the horizontal distance of the aim point, with the elevation then current
     for c in stub.calls:
-        ctx.check_eq('fired_to_aim_point_distance', c['range'], D * M.cos(look))
+        ctx.check_eq('fired_to_aim_point_distance', c['range'], D * M.cos(look), info={'distance_given_as': dist})
     ctx.check_eq('starts_from_current_total_elevation', stub.calls[0]['elev'], look + prev_zero)
 
 
